@@ -106,6 +106,19 @@ theorem last_band_counterexample :
       = some (28, 28) ∧ ¬ ((31 : Rat) ≤ (((gridLen 32 4 - 1) * 4 : Nat) : Rat) + (4 : Rat) / 2) := by
   decide +kernel
 
+/-- **unravel_exact**: the rough global peak is the cell that holds the flat argmax, for maps of ANY
+size (no 2^24 limit: the arithmetic is on integers): the cell is inside the row and re-flattens to the
+index. -/
+theorem unravel_exact (w idx : Nat) (hw : 0 < w) :
+    (unravel w idx).1 < w ∧ (unravel w idx).2 * w + (unravel w idx).1 = idx := by
+  constructor
+  · exact Nat.mod_lt _ hw
+  · simp only [unravel]
+    rw [Nat.mul_comm]
+    exact Nat.div_add_mod idx w
+
+example : unravel 4100 16790501 = (1001, 4095) := by decide
+
 /-- no refinement (`δ = 0`) satisfies the refinement hypothesis -/
 theorem no_refinement_ok (g os : Nat) (q : R) :
     |((g : R) + 0) * (os : R) - q| ≤ |((g * os : Nat) : R) - q| := by
